@@ -15,6 +15,7 @@ import (
 	"encoding/json"
 	"fmt"
 	cid "github.com/ipfs/go-cid"
+	"github.com/ipld/go-ipld-prime/fluent/qp"
 	mh "github.com/multiformats/go-multihash"
 	"io"
 	"os"
@@ -299,11 +300,11 @@ func avHash(n datamodel.Node) string {
 	return fmt.Sprintf("%x", v.Hash())
 }
 
-const nOps = 39
+const nOps = 43
 
 var opNames = []string{"read-basicnode", "read-bindnode-type", "read-bindnode-repr", "deepequal", "copy", "encode-dagcbor", "encode-dagjson", "encode-bindnode-repr",
 	"computelink", "load", "loadraw", "walkadv", "walkmatching", "get-path", "build-from-shared-prototype", "wrap-with-shared-type", "wrap-inferred", "registry-lookup",
-	"print", "read-gendemo", "build-gendemo", "compile-selector", "typesystem-read", "prototype-inferred", "encode-to-failing-writer", "encode-after-failed-encode", "decode-dagcbor", "decode-dagjson-into-shared-prototype", "focused-transform-of-shared-node", "walk-transform-of-shared-node", "loadplusraw", "fill", "walk-stream-bytes-subset", "read-stream-backed-bytes", "read-vocabulary-node", "walk-with-seeded-selector", "subset-of-stream-that-cannot-seek-to-its-end", "load-raw-codec-block-and-read-it-later", "read-shared-subset-match-node"}
+	"print", "read-gendemo", "build-gendemo", "compile-selector", "typesystem-read", "prototype-inferred", "encode-to-failing-writer", "encode-after-failed-encode", "decode-dagcbor", "decode-dagjson-into-shared-prototype", "focused-transform-of-shared-node", "walk-transform-of-shared-node", "loadplusraw", "fill", "walk-stream-bytes-subset", "read-stream-backed-bytes", "read-vocabulary-node", "walk-with-seeded-selector", "subset-of-stream-that-cannot-seek-to-its-end", "load-raw-codec-block-and-read-it-later", "read-shared-subset-match-node", "new-default-linksystem", "select-links", "load-schema-dsl", "fluent-qp-build"}
 
 // doOp performs one read-only operation on the shared world and returns a digest of its result.
 func (w *world) doOp(op, arg int) string {
@@ -601,6 +602,44 @@ func (w *world) doOp(op, arg int) string {
 			}
 		}
 		return out
+	case 39:
+		// every caller makes its own default link system (reads the default multicodec and multihash registries)
+		ls := cidlink.DefaultLinkSystem()
+		l, err := ls.ComputeLink(w.lp, w.n1)
+		return fmt.Sprint(l, err)
+	case 40:
+		links, err := traversal.SelectLinks(w.g.RootNode)
+		var sb strings.Builder
+		for _, l := range links {
+			sb.WriteString(l.String() + ";")
+		}
+		return fmt.Sprintf("%x %v", sim.HashString(sb.String()), err)
+	case 41:
+		// the same schema text is parsed and compiled by every caller
+		ts, err := ipld.LoadSchemaBytes([]byte(sharedSchemaText))
+		if err != nil {
+			return "ERR:" + err.Error()
+		}
+		names := ts.Names()
+		out := fmt.Sprint(len(names))
+		for _, n := range []string{"Person", "Point", "Shape"} {
+			if t := ts.TypeByName(n); t != nil {
+				out += " " + t.Name() + ":" + t.TypeKind().String()
+			}
+		}
+		return out
+	case 42:
+		n, err := qp.BuildMap(basicnode.Prototype.Any, -1, func(ma datamodel.MapAssembler) {
+			qp.MapEntry(ma, "shared", qp.Node(w.n1))
+			qp.MapEntry(ma, "list", qp.List(-1, func(la datamodel.ListAssembler) {
+				qp.ListEntry(la, qp.Int(int64(arg)))
+				qp.ListEntry(la, qp.Node(w.bn))
+			}))
+		})
+		if err != nil {
+			return "ERR:" + err.Error()
+		}
+		return avHash(n)
 	case 24, 25:
 		// encode a shared map-bearing node into a writer that fails at its arg-th write, then (25) encode again properly
 		fw := &failingWriter{at: arg}
@@ -805,3 +844,9 @@ func (n *noSeekEnd) Seek(off int64, whence int) (int64, error) {
 	}
 	return n.r.Seek(off, whence)
 }
+
+const sharedSchemaText = `
+type Point struct { X Int  Y Int } representation tuple
+type Person struct { Name String  Age optional Int  Pos Point  Tags [String] }
+type Shape union { | Point "point" | Person "person" } representation keyed
+`
